@@ -258,20 +258,9 @@ def arc_deref(ex, args, callee):
     return ArcInnerRef(a.cell)
 
 
-class _ArcInnerCell(Cell):
-    pass
-
-
 def ArcInnerRef(cell):
-    # A reference to the pointee: a proxy cell view. Pointees are never mutated through
-    # & (interior mutability lives in Native objects with their own cells), so a read-only
-    # snapshot cell is sufficient and keeps `Ref` simple.
-    inner = cell.v
-    c = getattr(cell, '_pointee', None)
-    if c is None:
-        c = Cell(inner.value, 'arc-pointee')
-        cell._pointee = c
-    return Ref(c, (), False)
+    """A reference to the pointee (which lives in its own cell inside the ArcInner)."""
+    return Ref(cell.v.value, (), False)
 
 
 @stub('<Arc as Clone>::clone')
@@ -292,7 +281,7 @@ def arc_new(ex, args, callee):
         label = 'Arc<%s>' % ex.rtype(args[0])
     except Unsupported:
         pass
-    return ArcV(Cell(ArcInner(args[0], 1, label), label))
+    return ArcV(Cell(ArcInner(Cell(args[0], 'arc-pointee'), 1, label), label))
 
 
 @stub('Arc::strong_count')
@@ -740,7 +729,7 @@ def trim_end_matches(ex, args, callee):
 def atomic_obj(ex, v):
     v = ex.deref_all(v)
     if isinstance(v, ArcV):
-        v = v.cell.v.value
+        v = v.cell.v.value.v
     if not (isinstance(v, Native) and v.rty == 'Atomic'):
         raise Unsupported('not an atomic: %r' % (v,))
     return v
